@@ -90,6 +90,18 @@ class Scratch(object):
         return dst
 
 
+def limit_resources(mem_gb=6):
+    """preexec_fn for harness subprocesses: a mutant must not be able to eat the machine"""
+    def f():
+        import resource
+        b = int(mem_gb * (1 << 30))
+        try:
+            resource.setrlimit(resource.RLIMIT_AS, (b, b))
+        except (ValueError, OSError):
+            pass
+    return f
+
+
 def pyenv(build_dir, extra=None):
     env = dict(os.environ)
     env["PYTHONPATH"] = build_dir + os.pathsep + os.path.join(VERIF, "harness")
@@ -103,7 +115,7 @@ def pyenv(build_dir, extra=None):
 def run_py(build_dir, args, stdin=None, timeout=3600, extra_env=None):
     """Run a harness script in the build under test."""
     r = subprocess.run([PY] + list(args), input=stdin, capture_output=True, text=True,
-                       env=pyenv(build_dir, extra_env), timeout=timeout)
+                       env=pyenv(build_dir, extra_env), timeout=timeout, preexec_fn=limit_resources())
     return r
 
 
